@@ -109,6 +109,25 @@ Theorem import_faithful_full : forall d b, switch_sizes_ok d -> import d = Ok b 
 Proof. exact ProofsFull.import_faithful_full. Qed.
 Print Assumptions import_faithful_full.
 
+(* C10 as ONE statement: a successful import is a faithful AND valid model of the file - the nodes and message heads
+   of the file, every signal of every message as in import_faithful_full; node names and CAN-IDs unique, sender
+   and receivers resolved, sizes in range (`msg_valid`), signal names and ids unique at every depth, the top-level
+   layout inside the payload and disjoint, the layout inside every multiplexer valid at every depth (the decode
+   and attribute clauses are the theorems further down) *)
+Theorem import_faithful_valid : forall d b, switch_sizes_ok d -> import d = Ok b ->
+  map n_name (b_nodes b) =
+    filter not_dummy (d_nodes d) ++ (if existsb (fun dm => String.eqb (dm_tx dm) dummy_node) (d_messages d) then [dummy_node] else []) /\
+  map msg_head (b_messages b) = map dmsg_head (d_messages d) /\
+  (exists se, (forall k, (exists e, lookup key_eqb k se = Some e) <-> has_valenc d k) /\
+     Forall2 (fun dm m => forall ds, In ds (dm_signals dm) -> faithful_sig d b se dm m ds) (d_messages d) (b_messages b)) /\
+  NoDup (map n_name (b_nodes b)) /\ NoDup (map m_canid (b_messages b)) /\
+  Forall (msg_valid (map n_name (b_nodes b))) (b_messages b) /\
+  Forall2 (fun dm m => names_ids_ok dm (m_signals m)) (d_messages d) (b_messages b) /\
+  Forall (fun m => tops_valid (b_enums b) (m_size m * 8) (m_signals m)) (b_messages b) /\
+  Forall (fun m => groups_valid (b_enums b) (m_signals m)) (b_messages b).
+Proof. exact ProofsFull.import_faithful_valid. Qed.
+Print Assumptions import_faithful_valid.
+
 (* messages with exactly one multiplexor switch (simple multiplexing, SG_MUL_VAL_ entries allowed):
    the switch is a top-level multiplexer at its position with 2^size groups; every other signal of
    the file is present with the file's data, top-level at its position or child of the multiplexer
